@@ -25,8 +25,10 @@ def gen_history(rnd, n, maxops=6):
     for _ in range(rnd.randrange(1, maxops + 1)):
         r = rnd.random()
         if r < 0.03:
-            ops.append(("debug", rnd.choice([0, 1, 0])))  # asm_set_debug on/off: must not change anything about containment
-        elif r < 0.1:
+            ops.append(("debug", rnd.choice([0, 1, 0])))
+        elif r < 0.07:
+            ops.append(("get",))  # asm_get_code / asm_get_offset / asm_get_buffer: getters write nothing, wherever the offset stands  # asm_set_debug on/off: must not change anything about containment
+        elif r < 0.12:
             ops.append(("opt", rnd.choice(["mov", "swap", "nobase", "sib", "all"]), rnd.choice([0, 1, 2, 3])))
         elif r < 0.25:
             ops.append(("chunk", rnd.choice([0, 1, 2, 3, 5, 8, 13, 16, 32, 64, 100, 4, 6, 7, 9, 10, 11, 12, 17, 24, 48, 128, 255, 256, 1000, n + 5, max(2, n - 3), 2**64 - 1])))
@@ -91,6 +93,8 @@ def templates():
     T.append(lambda n: [("debug", 1), ("debug", 0), ("asm", [1] * (n + 5)), ("asm", [13])])
     T.append(lambda n: [("debug", 0), ("chunk", 8), ("asm", [13] * (n // 8 + 2))])
     T.append(lambda n: [("asm", [3] * 2), ("debug", 0), ("setoff", max(0, n - 19)), ("asm", [1]), ("cnt", 8, [13, 13])])
+    T.append(lambda n: [("chunk", 32), ("asm", [12] * max(1, (n - 20) // 12)), ("get",), ("setoff", max(0, n - 1)), ("get",), ("setoff", n), ("get",)])  # getters at the very end of the buffer, fitting mode
+    T.append(lambda n: [("asm", [1]), ("chunk", 16), ("setoff", max(0, n - 5)), ("get",), ("asm", [1]), ("get",)])
     T.append(lambda n: [("setoff", n), ("asm", [-1, -1])])                                  # nothing to emit: no room needed
     T.append(lambda n: [("setoff", max(0, n - 19)), ("asm", [-1, 1, -1])])                  # a comment first does not exempt the instruction behind it
     T.append(lambda n: [("setoff", max(0, n - 21)), ("asm", [-1, 1, -1, 1, -1]), ("cnt", 8, [-1, 13])])
@@ -111,6 +115,8 @@ def to_cmds(n, place, hist, fill="0xcc"):
             cmds.append("opt 0 %s %d" % (op[1], op[2]))
         elif op[0] == "debug":
             cmds.append("debug 0 %d" % op[1])
+        elif op[0] == "get":
+            cmds.append("getcode 0")
         elif op[0] == "chunk":
             cmds.append("chunk 0 %d" % op[1])
         elif op[0] == "setoff":
@@ -220,6 +226,14 @@ def run(tier):
                     c_fit = op[1] if op[1] >= 2 else 0
                 elif op[0] == "setoff":
                     off = op[1]
+                elif op[0] == "get":
+                    g_ = rec.split()
+                    if g_[0] != "C" or g_[1] != "1":
+                        bad = ("getter-returns-another-buffer", rec)
+                        break
+                    if int(g_[3]):
+                        bad = ("canary-damaged:%s" % ("before-buffer" if int(g_[4]) < 0 else "after-buffer"), "after the getters: " + rec)
+                        break
                 elif op[0] in ("asm", "cnt"):
                     a = rec.split()
                     if a[0] != "A":
@@ -307,7 +321,7 @@ def run(tier):
             v.violation(case, bad[0], bad[1])
         else:
             v.distinct(("reserve", t, n))
-    v.cov["rule"] = ("histories create(n) + <=6 ops from {option setters, chunk size, asm_set_offset(0<=k<=n), assemble, counting assemble} with instructions of every length 1..17 (runs and mixtures), malformed lines and "
+    v.cov["rule"] = ("histories create(n) + <=6 ops from {option setters, chunk size, asm_set_offset(0<=k<=n), assemble, counting assemble, the getters asm_get_code / asm_get_offset / asm_get_buffer} with instructions of every length 1..17 (runs and mixtures), malformed lines and "
                      "failing calls followed by further calls without resetting the offset; n = 0..64 exhaustively x a fixed family of 40 templates x 3 guard placements (ASan heap redzones; guard page "
                      "directly after / directly before the buffer with canary slack on the other side), a grid of runs of each instruction length that end around the end of buffers of 64..2048 bytes (plain, fitting, counting, start offset 13), then seeded random histories (up to 14 operations; 28 chunk sizes incl. ones above n and SIZE_MAX) on n in {0..6100, 8192, 12000, 32768, 65535..65566, 100000, 2^20, 2^20+21}. Monitors: guard-page fault, "
                      "canary, snapshot of [0,start) around every call, ASan, and the room model (an instruction starting with < 20 bytes left => the call must fail). Plus: every line of the "
@@ -321,6 +335,9 @@ def run(tier):
 def _short(h):
     out = []
     for op in h:
+        if op[0] == "get":
+            out.append("get()")
+            continue
         if op[0] in ("asm", "cnt"):
             lens = op[-1]
             s = ",".join("%dx%d" % (L, lens.count(L)) for L in sorted(set(lens))) if len(lens) > 6 else ",".join(map(str, lens))
